@@ -74,7 +74,10 @@ def run(ctx):
     # ---------------------------------------------------------------- C09.2
     cl = P.fn(call.callee)
     ctx.touch(cl)
-    writes = cl.calls(r'write_compaction_summary_v1$')
+    # the summary write: whatever the closure calls in ripd::compaction_summary that ends up writing a file (by what it
+    # does, not by its name: a write split into reserve + write_reserved is still the write)
+    writes = [s_ for s_ in cl.sites() if (s_.callee or '').startswith('ripd::compaction_summary::') and any(
+        re.search(r'^std::fs::(write|rename)$|^std::fs::File::create$|std::io::Write>::write_all$', x) for x in P.reach_fns([s_.callee]))]
     appends = cl.calls(r'ContinuityStore::append_compaction_checkpoint_created$')
     if not writes or not appends:
         raise CheckError('C09.2: summariser closure lacks the summary write / checkpoint append')
